@@ -35,6 +35,13 @@ SHAPES = {
     "switch": (["graph g0 nin=1", "n 4 lpass in=a0{f4}", "out 4", "endgraph", "graph g1 nin=1", "n 5 lpass in=a0{f5}", "n 7 lsink in=5{f7}", "out 5", "endgraph",
                 "graph root", "n 1 src script=1:1;3:2;4:1", "n 2 lsrc cnt=5{f2}", "n 3 switch in=1,2 cases=1:0,2:1", "n 6 lsink in=3{f6}", "endgraph"],
                [2, 4, 5, 6, 7]),
+    # a branch whose result is forwarded from a graph nested inside it: the retired branch (and what is nested in it) must be
+    # stopped when the key changes, not only when the switch itself stops
+    "switchn": (["graph g2 nin=1", "n 8 lpass in=a0{f8}", "n 9 lsink in=8{f9}", "out 8", "endgraph",
+                 "graph g0 nin=1", "n 4 nested g=2 in=a0", "out 4", "endgraph",
+                 "graph g1 nin=1", "n 5 lpass in=a0{f5}", "n 7 nested g=2 in=5", "out 7", "endgraph",
+                 "graph root", "n 1 src script=1:1;3:2;4:1", "n 2 lsrc cnt=5{f2}", "n 3 switch in=1,2 cases=1:0,2:1", "n 6 lsink in=3{f6}", "endgraph"],
+                [2, 5, 6, 8, 9]),
     # reductions: one combiner child graph per element pair (tree) / per element (ordered chain); the collection grows, then
     # SHRINKS in the last cycle of the run, so retired children have no later evaluation to be swept by
     "reduce": (["graph root", "n 1 dsrc script=1:1=1;2:2=2,3=3;3:4=4;5:-2,-4", "n 2 reduce in=1 comb=gadd zero=0", "n 3 rrec in=2,1",
@@ -72,7 +79,7 @@ def main():
     rng = random.Random(hg.seed() * 31 + 14)
     cases = []
     for shape, (_, ids) in SHAPES.items():
-        occs = (1, 2, 3) if shape in ("map", "switch") else (1, 2)
+        occs = (1, 2, 3) if shape in ("map", "switch", "switchn") else (1, 2)
         singles = [(i, ph, occ) for i in ids for ph in PHASES for occ in occs]
         sets = [()] + [(f,) for f in singles]
         pairs = [(f, g) for f in singles for g in singles if f < g and g[1] == "stop"]   # a second fault while stopping / rolling back
@@ -87,7 +94,7 @@ def main():
     # the same lifecycle in REAL-TIME mode: the run idles until the wall clock reaches its end time (or a fault ends it);
     # whatever ends it, nothing may be left started when run() returns
     for shape, (_, ids) in SHAPES.items():
-        if shape in ("map", "switch", "reduce", "oreduce"):
+        if shape in ("map", "switch", "switchn", "reduce", "oreduce"):
             continue
         fsets = [()] + [((i, ph, 1),) for i in ids for ph in ("eval", "stop")]
         rng.shuffle(fsets)
